@@ -47,3 +47,8 @@ pub fn control_remove(path: &std::path::Path) -> std::io::Result<()> {
 pub fn control_forget(v: Vec<u8>) {
     std::mem::forget(v)
 }
+
+/// total-parsing control: a panic on a fallible text conversion of input text
+pub fn control_parse_expect(line: &str) -> i32 {
+    line.trim().parse::<i32>().expect("digits only")
+}
